@@ -35,7 +35,7 @@ def dump_mir(crate, out_name, features=None):
         cmd = ["cargo", "+nightly", "rustc", "--offline", "--lib", "--target-dir", target]
         if features:
             cmd += ["--features", features]
-        cmd += ["--", "-Zunpretty=mir", "-C", "debug-assertions=off", "-C", "overflow-checks=on"]
+        cmd += ["--", "--cap-lints", "warn", "-Zunpretty=mir", "-C", "debug-assertions=off", "-C", "overflow-checks=on"]
         # the scratch copy has fresh mtimes, but cargo fingerprints by path+mtime of the *scratch* path which changes
         # with the pid: force the crate itself to be rebuilt so that MIR is printed
         p = subprocess.run(cmd, cwd=cdir, env=env, capture_output=True, text=True)
